@@ -610,3 +610,96 @@ def check_c17(tier, seed, log=print):
                              samples=samples, model_vs_impl_disagreements=tie_dis))
     run.assumptions += ['--format (rustfmt) is not exercised', 'which paths "denote Logos" is taken as: last path segment is `Logos`']
     return run.finish()
+
+
+# ------------------------------------------------------------------------------------------------
+# C19: the derive never panics and rejects what it cannot implement
+# ------------------------------------------------------------------------------------------------
+def check_c19(tier, seed, log=print):
+    import rustc_ui as U
+    run = start('C19', tier, seed)
+    R = random.Random(seed)
+    cases = F.fam_c19(R, 120 if tier == 'quick' else 1500)
+    iso = [i for i, c in enumerate(cases) if 'resource exhaustion' in c['meta'].get('note', '')]
+    caps = P.run_capture([c['src'] for c in cases], isolated=iso)
+    # library entry point
+    n = 0
+    nontriv = set()
+    samples = []
+    verdicts = {}
+    for i, c in enumerate(cases):
+        cap, m = caps[i], c['meta']
+        v = cap.verdict if cap else 'NONE'
+        verdicts[v] = verdicts.get(v, 0) + 1
+        if v in ('NOTENUM', 'LEXERR'):
+            continue
+        n += 1
+        if m['expect'] != 'any' or 'mutation' in m.get('note', ''):
+            nontriv.add(i)
+        msg = None
+        if v == 'PANIC':
+            msg = 'logos_codegen::generate panicked: ' + (cap.panic_msg or '')
+        elif v == 'CRASH':
+            msg = 'the derive does not terminate gracefully: ' + (cap.panic_msg or '')
+        elif m['expect'] == 'reject' and v != 'REJECT':
+            msg = 'a definition that cannot be implemented faithfully (%s) was accepted' % (m.get('note') or m.get('cls'))
+        elif m['expect'] == 'reject' and m.get('cls') and m['cls'] not in cap.err_classes():
+            msg = 'rejected, but not for the expected reason %s: %s' % (m['cls'], cap.err_classes())
+        elif m['expect'] == 'accept' and v != 'ACCEPT':
+            msg = 'a valid definition was rejected: %s' % cap.errs[:1]
+        elif m['expect'] == 'noreject-greedy' and 'greedy' in cap.err_classes():
+            msg = 'allow_greedy = true did not suppress the greedy-dot diagnostic'
+        if msg:
+            run.violation('derive', dict(definition=c['src'], entry='logos_codegen::generate under catch_unwind', verdict=v, what=msg, note=m.get('note')),
+                          key='%s|%s' % ('crash' if v == 'CRASH' else 'derive', c['src']))
+        elif len(samples) < 5 and m['expect'] == 'reject':
+            samples.append(dict(definition=c['src'], verdict=v, classes=cap.err_classes()))
+    # model ties: nullable and greedy decisions on the captured HIR
+    qs = {i: ['NULLABLE', 'GREEDY'] for i, c in enumerate(caps) if c is not None and not c.nodump and c.verdict in ('ACCEPT', 'REJECT')}
+    ans = lean_queries(cases, caps, qs)
+    tie = 0
+    for i in qs:
+        cap = caps[i]
+        nul = ans.get((i, 'NULLABLE'), '').split(' ')
+        gr = ans.get((i, 'GREEDY'), '').split(' ')
+        src = cases[i]['src']
+        if '1' in nul and cap.verdict == 'ACCEPT':
+            run.violation('nullable-accepted', dict(definition=src, nullable_leaves=nul, what='a pattern can match the empty string (Lean nullable on the captured HIR) but the definition was accepted'),
+                          key='nullable|' + src)
+        if 'allow_greedy' not in src and 'mutation' not in cases[i]['meta'].get('note', ''):
+            tie += 1
+            model_greedy = '1' in gr
+            real_greedy = 'greedy' in cap.err_classes()
+            if model_greedy and not real_greedy:
+                run.violation('greedy-accepted', dict(definition=src, greedy_leaves=gr, verdict=cap.verdict, errors=cap.errs,
+                                                      what='the pattern contains an unbounded greedy dot repetition (model Hir.greedyFixed = HasGreedyDot) but no diagnostic was emitted'),
+                              key='greedy|' + src)
+            elif real_greedy and not model_greedy:
+                run.violation('tie', dict(definition=src, what='greedy diagnostic without a greedy dot in the captured HIR', correspondence='has_greedy_all vs Hir.greedyFixed'),
+                              no_input=True, key='greedytie|' + src)
+    # through rustc as a real procedural macro (stable): no "proc-macro derive panicked"; accepted ones compile
+    ui_idx = [i for i, c in enumerate(cases) if i not in iso and (caps[i] is None or caps[i].verdict not in ('NOTENUM', 'LEXERR'))]
+    if tier == 'quick':
+        ui_idx = ui_idx[:260]
+    per, other, rc, err = U.run_ui('ui19', [cases[i]['src'] for i in ui_idx])
+    ui_panics = 0
+    for i, msgs in zip(ui_idx, per):
+        pan = [m_ for m_ in msgs if 'panicked' in m_]
+        if pan:
+            ui_panics += 1
+            run.violation('proc-macro-panic', dict(definition=cases[i]['src'], entry='rustc (stable) procedural macro', messages=msgs[:3],
+                                                   what='proc-macro derive panicked'), key='uipanic|' + cases[i]['src'])
+        elif cases[i]['meta']['expect'] == 'accept' and msgs:
+            run.violation('does-not-compile', dict(definition=cases[i]['src'], messages=msgs[:3], what='an accepted definition does not compile'),
+                          key='uicompile|' + cases[i]['src'])
+    if rc not in (0, 101) or any('panicked' in o for o in other):
+        run.violation('rustc', dict(stderr=err[-1500:], other=other[:3], what='the rustc run failed in an unexpected way'), no_input=True)
+    run.coverage.update(dict(evaluations=n + len(ui_idx), distinct_nontrivial=len(nontriv), verdicts=verdicts, rustc_cases=len(ui_idx),
+                             greedy_decisions_compared=tie,
+                             rule='malformed stream: variant shapes (empty/multi/named fields), malformed and duplicated attribute arguments, #[logos(...)] shapes, generics, nullable patterns, look-behind at the token start, '
+                                  'unsupported regex features, greedy dots at every depth with and without allow_greedy, undefined subpatterns, non-UTF-8 patterns in str mode, and argument-level mutations of a valid definition; '
+                                  'each run through logos_codegen::generate under catch_unwind and through rustc as a real derive; expected rejections by class; nullable/greedy decisions compared with the Lean model on the captured HIR; non-trivial = has a definite expectation or is a mutation',
+                             samples=samples))
+    run.assumptions += ['partial: the model covers logos\'s decision logic (variant shapes, greedy check, nullability), not syn or rustc',
+                        'inputs that are not enum items are never handed to the derive by rustc and are excluded']
+    return run.finish()
